@@ -127,6 +127,41 @@ def idClaim (chain nonce : Int) (sender : Str) : Claim :=
   { chainId := chain, bridge := [], nonce := nonce, symbol := [], token := [], sender := sender,
     validator := [], receiver := [], amount := 0, claimType := 0 }
 
+/-- one event of a batch: to todec sym chain value nonce type bridge sender token -/
+def parseBatchEvent : List String → Option (EthEvent × Option Str)
+  | [to, todec, sym, chain, value, nonce, ty, bridge, sender, token] => do
+      let to ← unhex to; let todec ← parseDec todec; let sym ← unhex sym
+      let chain ← chain.toInt?; let value ← value.toInt?; let nonce ← nonce.toInt?; let ty ← ty.toNat?
+      let bridge ← parseAddr bridge; let sender ← parseAddr sender; let token ← parseAddr token
+      some ({ to := to, symbol := sym, chainId := chain, value := value, nonce := nonce, claimType := ty,
+              bridge := bridge, sender := sender, token := token }, todec)
+  | _ => none
+
+def chunks (n : Nat) : Nat → List String → Option (List (List String))
+  | 0, [] => some []
+  | 0, _ => none
+  | k + 1, l => if l.length < n then none else (chunks n k (l.drop n)).map (l.take n :: ·)
+
+/-- `<val> <table> <k> <event>×k <rest…>` → environment (bech32 answers as observed per recipient text; symbols
+    of the batch family are ASCII, so the Unicode path of ToLower is never taken), validator, events, rest -/
+def parseBatch : List String → Option (Env × Str × List EthEvent × List String)
+  | val :: table :: k :: rest => do
+      let val ← unhex val; let table ← parsePairs table; let k ← k.toNat?
+      let evs ← (← chunks 10 k (rest.take (10 * k))).mapM parseBatchEvent
+      let env : Env := { bech32 := fun s => match evs.find? (fun p => p.1.to = s) with | some p => p.2 | none => none,
+                         bech32Val := fun _ => none, lower := fun s => s, table := table }
+      some (env, val, evs.map (·.1), rest.drop (10 * k))
+  | _ => none
+
+def parseClaims : List String → Option (List Claim)
+  | m :: rest => do
+      let m ← m.toNat?
+      (← chunks 10 m rest).mapM parseClaim
+  | _ => none
+
+def claimTokens (c : Claim) : String :=
+  s!"{c.chainId} {String.ofList c.bridge} {c.nonce} {hex c.symbol} {String.ofList c.token} {String.ofList c.sender} {hex c.validator} {hex c.receiver} {c.amount} {c.claimType}"
+
 def handle : List String → Option String
   -- the two paths into EthereumEventToEthBridgeClaim (direct, and through ABI packing + logToEvent)
   | "eth2claim" :: args => do
@@ -167,6 +202,29 @@ def handle : List String → Option String
       let kind ← kind.toNat?; let attrs ← parseAttrs attrs; let table ← parsePairs table
       let m ← parseMsg rest
       some (toString (msgFaithful kind (mkEnv none [] table) attrs m))
+  | "batch" :: args => do
+      let (env, val, evs, _) ← parseBatch args
+      match handleBatch env val evs with
+      | .error e => some (showFail e)
+      | .ok none => some "none"
+      | .ok (some cs) => some (" ".intercalate (s!"ok {cs.length}" :: cs.map claimTokens))
+  | "chk" :: "c16.batchcount" :: _tag :: args => do
+      let (env, val, evs, rest) ← parseBatch args
+      let cs ← parseClaims rest
+      some (toString (batchCountOK env val evs cs))
+  | "chk" :: "c16.batchfields" :: _tag :: args => do
+      let (env, val, evs, rest) ← parseBatch args
+      let cs ← parseClaims rest
+      some (toString (batchFieldsOK env val evs cs))
+  | "chk" :: "c16.batchids" :: _tag :: args => do
+      let (env, val, evs, rest) ← parseBatch args
+      match rest with
+      | m :: ids => do
+          let m ← m.toNat?
+          if ids.length ≠ m then none
+          let ids ← ids.mapM unhex
+          some (toString (batchIdsOK env val evs ids))
+      | _ => none
   | "emit" :: rest => do
       let (b, seq) ← parseBridgeMsg rest
       some (showAttrs (emitAttrs b seq))
